@@ -37,5 +37,9 @@ theorem Num.min'_real (a b : ℝ) : Num.min' a b = min a b := by
   unfold Num.min'; split_ifs with h
   · exact (min_eq_right h.le).symm
   · exact (min_eq_left (not_lt.mp h)).symm
+theorem Num.abs'_real (a : ℝ) : Num.abs' a = |a| := by
+  unfold Num.abs'; simp only [Num.lit_real, Nat.cast_zero]; split_ifs with h
+  · exact (abs_of_neg h).symm
+  · exact (abs_of_nonneg (not_lt.mp h)).symm
 theorem Num.ofScaled_real (n k : ℕ) : (Num.ofScaled n k : ℝ) = (n : ℝ) / (2 : ℝ) ^ k := by
   simp [Num.ofScaled]
